@@ -22,7 +22,8 @@ class UseSetLiteral(SimpleCodemod, NameResolutionMixin):
         match original_node.func:
             case cst.Name("set"):
                 if self.is_builtin_function(original_node):
-                    match original_node.args:
+                    # match the updated node: its arguments hold the rewrites already made inside them
+                    match updated_node.args:
                         case [cst.Arg(value=cst.List(elements=elements))]:
                             self.report_change(original_node)
 
